@@ -38,7 +38,7 @@ macro_rules | `(tactic| invr_step $hi $h $f) => `(tactic|
 theorem invR_step {c : Cfg} {s s' : State} {t : Nat} {l : Label} (hi : InvR s) (h : step c s t l = some s') :
     InvR s' := by
   cases l <;> simp only [step] at h
-  case call op => invr_step hi h stepCall
+  case call op a => invr_step hi h stepCall
   case advance d => simp at h; subst h; exact ⟨hi.ok, hi.reg⟩
   case read => invr_step hi h stepRead
   case insMap => invr_step hi h stepInsMap
